@@ -25,6 +25,8 @@ func init() {
 		Run: runC08,
 	})
 	addMutants("C08",
+		mutant{"peer's reply to our close is not recorded", "codec/websocket/stream.go",
+			"\t\tcase StateClosedByUs:\n\t\t\t// we received a reply from the peer\n\t\t\ts.state = StateCloseAcked", "\t\tcase StateClosedByUs:\n\t\t\t// we received a reply from the peer", "C08-R1"},
 		mutant{"second close frame after a local close", "codec/websocket/stream.go",
 			"\tif err != nil && s.state == StateActive {\n\t\t// Only start", "\tif err != nil {\n\t\t// Only start", "C08-R"},
 		mutant{"close can be started twice", "codec/websocket/stream.go",
@@ -152,7 +154,7 @@ func runC08(c *Ctx) {
 	const nStates = 6
 
 	// ------------------------------------------------------------------------------------------------ R1
-	c.rule("C08-R1", "static transition relation of (*Stream).state is a subset of the RFC 6455 table", 13)
+	c.rule("C08-R1", "static transition relation of (*Stream).state is a subset of the RFC 6455 table and contains the transitions of the closing handshake", 16)
 	allowedFrom := map[int64]map[int64]bool{
 		w.stActive:   {w.stHandshake: true},
 		w.stByUs:     {w.stActive: true},
@@ -160,6 +162,7 @@ func runC08(c *Ctx) {
 		w.stAcked:    {w.stByUs: true},
 		w.stTerm:     {w.stHandshake: true, w.stActive: true, w.stByUs: true, w.stByPeer: true, w.stAcked: true, w.stTerm: true},
 	}
+	present := map[[2]int64]bool{}
 	for _, fn := range fns {
 		for _, a := range storesTo(fn, w.state) {
 			st := a.Instr.(*ssa.Store)
@@ -199,10 +202,20 @@ func runC08(c *Ctx) {
 			}
 			if to == w.stTerm {
 				c.ok(fn, construct, st.Pos(), "termination is allowed from %s", w.names(from))
+				for s := range from {
+					present[[2]int64{s, to}] = true
+				}
 				continue
 			}
 			c.check(len(bad) == 0, fn, construct, st.Pos(), "from "+w.names(from), fmt.Sprintf("transition %s -> %s is not in the RFC 6455 state machine (guards at this store allow %s)", w.names(bad), w.stateNames[to], w.names(from)))
+			for s := range from {
+				present[[2]int64{s, to}] = true
+			}
 		}
+	}
+	// ... and contains the transitions the closing handshake needs (State() must reflect the stage reached)
+	for _, tr := range [][2]int64{{w.stActive, w.stByUs}, {w.stActive, w.stByPeer}, {w.stByUs, w.stAcked}, {w.stActive, w.stTerm}, {w.stByUs, w.stTerm}} {
+		c.check(present[tr], w.reset, "has "+w.stateNames[tr[0]]+"->"+w.stateNames[tr[1]], w.reset.Pos(), "the transition exists", "no code moves the stream from "+w.stateNames[tr[0]]+" to "+w.stateNames[tr[1]]+": State() does not reflect this stage of the closing handshake when it is reached")
 	}
 
 	// ------------------------------------------------------------------------------------------------ R2
